@@ -68,3 +68,33 @@ def rand_scc_graph(rng, max_nodes=8, max_edges=14):
         if len(fwd & bwd) < G.number_of_nodes():
             continue
         return G, gad
+
+
+def rand_dag_with_cycles(rng, rand_dag, nmax=8):
+    """A random DAG (from `rand_dag`) into which 1-3 small cycles are planted (self-loop, 2-cycle through a new node,
+    or a back edge); sources / sinks that become cyclic get a new source / sink node, so that every node stays on a
+    source-to-sink walk.  Denser than the gadget graphs: many alternative routes between the SCCs, which is what the
+    slot-assignment (maximum antichain) code needs to be exercised with sparse trusted sets.  Returns None if the
+    result has a node that is not on a source-to-sink walk."""
+    G = rand_dag(rng, nmax=nmax)
+    nodes = list(G.nodes())
+    for _ in range(rng.randint(1, 3)):
+        v = rng.choice(nodes); r = rng.random()
+        if G.out_degree(v) == 0: G.add_edge(v, v + "t")
+        if G.in_degree(v) == 0: G.add_edge(v + "s", v)
+        if r < 0.4:
+            G.add_edge(v, v)
+        elif r < 0.8:
+            G.add_edge(v, v + "c"); G.add_edge(v + "c", v)
+        else:
+            u, w = rng.choice(list(G.edges()))
+            if u != w: G.add_edge(w, u)
+    srcs = [v for v in G if G.in_degree(v) == 0]; snks = [v for v in G if G.out_degree(v) == 0]
+    if not srcs or not snks:
+        return None
+    fwd = set(srcs); bwd = set(snks)
+    for a in srcs: fwd |= nx.descendants(G, a)
+    for b in snks: bwd |= nx.ancestors(G, b)
+    if len(fwd & bwd) < G.number_of_nodes():
+        return None
+    return G
